@@ -9,6 +9,7 @@ From Verif Require Import Reloc.RelocModel Sections.SectionModel Sections.ChunkM
   Sections.JitRelocProofs Sections.SectionProofs Sections.SectionTable Sections.CopyProofs
   Sections.ShrinkProofs Sections.StableProofs Sections.CoverProofs Sections.SettleProofs Sections.SectionSummary Sections.SectionExamples
   Sections.FlagsModel Sections.FlagsProofs Sections.WidthModel Sections.WidthProofs Sections.JitCopyModel Sections.JitCopyProofs Sections.BuiltProofs Sections.BuiltJit Sections.BuiltJitCalls Sections.MonoProofs Sections.IdealProofs Sections.ReachIdeal Sections.Round7Proofs.
+From Verif Require Import Sections.DataIndep.
 From VerifGen Require C10Consts.
 Import ListNotations.
 Local Open Scope Z_scope.
@@ -740,3 +741,17 @@ Theorem C10_example_builtc_jit_loop : exists h1 h2 m1,
   copy_flat h2 (repeat 205 32) 32 true false = (EOk, m1) /\ jit_copy h2 (repeat 205 32) = m1.
 Proof. exact builtc_jit_loop_example. Qed.
 Print Assumptions C10_example_builtc_jit_loop.
+
+(* round 8: the layout depends only on sizes, alignments, orders and ids - the bytes held in the section buffers never influence
+   flatten() or code_size() (redata g replaces CodeBuffer contents, keeping CodeBuffer::_size); no hypothesis on the holder *)
+Theorem C10_layout_independent_of_data : forall g h,
+  flatten (map (redata g) h) = (fst (flatten h), map (redata g) (snd (flatten h))) /\
+  code_size (map (redata g) h) = code_size h.
+Proof. exact layout_independent_of_data. Qed.
+Print Assumptions C10_layout_independent_of_data.
+
+Theorem C10_example_layout_independent_of_data :
+  let h := [mkSection 0 0 0 0 0 3 [1; 2; 3] []; mkSection 1 0 16 0 0 2 [9; 9] []] in
+  map soff (snd (flatten h)) = [0; 16] /\ map soff (snd (flatten (map (redata (map (fun _ => 0))) h))) = [0; 16].
+Proof. exact layout_independent_of_data_example. Qed.
+Print Assumptions C10_example_layout_independent_of_data.
